@@ -466,6 +466,38 @@ fn alloc_heavy(rng: &mut Rng, i: usize) -> Prog {
     Prog { family: format!("alloc:{}", f), job: json!({"mods": [], "main": main, "twice": true}) }
 }
 
+
+/// A fresh value that stays alive across forced collections ONLY through one object of the
+/// named kind (closure upvar, partial-application argument, each array representation, variant /
+/// record field, lazy thunk and lazy value, reference, channel queue, stack of a suspended child
+/// thread): if the `Trace` impl of that kind lost the pointer, the value is freed and overwritten
+/// by the churn, and the outcome differs between k.
+fn only_path(rng: &mut Rng, i: usize) -> Prog {
+    let n = rng.range(1, 900);
+    let kinds = [
+        "closure-upvar", "partial-app-arg", "array-boxed", "array-of-arrays", "array-of-strings", "variant-field",
+        "record-field", "lazy-thunk", "lazy-value", "reference", "channel-queue", "child-thread-stack", "nested-closure-in-array",
+    ];
+    let k = kinds[i % kinds.len()];
+    let pre = "let array = import! std.array.prim\nlet string = import! std.string.prim\nlet io = import! std.io.prim\nrec let churn n acc = if n #Int== 0 then acc else churn (n #Int- 1) (array.append acc [n, n #Int+ 1])\nin\nlet fresh u = array.append [u, 1] [2, 3]\n";
+    let body = match k {
+        "closure-upvar" => format!("let f = (let x = fresh {n} in \\u -> x)\nlet j = churn 30 [0]\n{{ v = f (), j = array.len j }}", n = n),
+        "partial-app-arg" => format!("let g a b c = {{ a, b }}\nlet p = g (fresh {n}) (fresh 7)\nlet j = churn 30 [0]\n{{ v = p 0, j = array.len j }}", n = n),
+        "array-boxed" => format!("let arr = [{{ v = fresh {n} }}, {{ v = fresh 8 }}]\nlet j = churn 30 [0]\n{{ v = (array.index arr 0).v, w = (array.index arr 1).v, j = array.len j }}", n = n),
+        "array-of-arrays" => format!("let arr = [fresh {n}, fresh 9]\nlet j = churn 30 [0]\n{{ v = array.index arr 0, w = array.index arr 1, j = array.len j }}", n = n),
+        "array-of-strings" => format!("let arr = [string.append \"ab{n}\" \"cd\", string.append \"ef\" \"gh\"]\nlet j = churn 30 [0]\n{{ v = array.index arr 0, w = array.index arr 1, j = array.len j }}", n = n),
+        "variant-field" => format!("type V = | A (Array Int) (Array Int) | B\nlet x = A (fresh {n}) (fresh 3)\nlet j = churn 30 [0]\nmatch x with\n| A p q -> {{ p, q, j = array.len j }}\n| B -> {{ p = [0], q = [0], j = 0 }}", n = n),
+        "record-field" => format!("let r = {{ a = {{ b = {{ c = fresh {n} }} }}, d = fresh 4 }}\nlet j = churn 30 [0]\n{{ v = r.a.b.c, w = r.d, j = array.len j }}", n = n),
+        "lazy-thunk" => format!("let {{ lazy, force }} = import! std.lazy\nlet l = (let x = fresh {n} in lazy (\\u -> x))\nlet j = churn 30 [0]\n{{ v = force l, j = array.len j }}", n = n),
+        "lazy-value" => format!("let {{ lazy, force }} = import! std.lazy\nlet l = lazy (\\u -> fresh {n})\nlet a = array.len (force l)\nlet j = churn 30 [0]\n{{ v = force l, a, j = array.len j }}", n = n),
+        "reference" => format!("let st = import! std.st.reference.prim\nlet r = st.ref (fresh {n})\nlet j = churn 30 [0]\nlet u = st.(<-) r (fresh {m})\nlet j2 = churn 30 [0]\n{{ v = st.load r, j = array.len j #Int+ array.len j2 }}", n = n, m = n + 1),
+        "channel-queue" => format!("let {{ channel, send, recv }} = import! std.channel\nio.flat_map (\\c ->\n    io.flat_map (\\s1 ->\n        io.flat_map (\\s2 ->\n            let j = churn 30 [0]\n            io.flat_map (\\a -> io.flat_map (\\b -> io.wrap {{ a, b, j = array.len j }}) (recv c.receiver)) (recv c.receiver))\n            (send c.sender (fresh 5)))\n        (send c.sender (fresh {n})))\n    (channel [0])", n = n),
+        "child-thread-stack" => format!("let {{ channel, send, recv }} = import! std.channel\nlet {{ spawn, resume }} = import! std.thread\nio.flat_map (\\c ->\n    io.flat_map (\\t ->\n        let j = churn 30 [0]\n        io.flat_map (\\r0 -> io.flat_map (\\got -> io.wrap {{ got, j = array.len j }}) (recv c.receiver)) (resume t))\n        (spawn (let x = fresh {n} in io.flat_map (\\r -> io.wrap ()) (send c.sender x))))\n    (channel [0])", n = n),
+        _ => format!("let fs = [(let x = fresh {n} in \\u -> x), (let y = fresh 6 in \\u -> y)]\nlet j = churn 30 [0]\n{{ v = (array.index fs 0) (), w = (array.index fs 1) (), j = array.len j }}", n = n),
+    };
+    Prog { family: format!("only-path:{}", k), job: json!({"mods": [], "main": format!("{}{}", pre, body), "twice": true}) }
+}
+
 /// Programs that store a fresh (thread-heap) value into a cell owned by a loaded module and then
 /// allocate before using it again.
 fn module_cell(rng: &mut Rng, i: usize, uid: &str) -> Prog {
@@ -521,6 +553,7 @@ fn transparency(args: &Args, out: &mut Out) {
     let n_surf = if thorough { 1200 } else { 110 };
     let n_alloc = if thorough { 300 } else { 24 };
     let n_cell = if thorough { 60 } else { 8 };
+    let n_path = if thorough { 130 } else { 26 };
     let mut rng = Rng::new(args.seed, 0x7A);
     let mut progs: Vec<Prog> = vec![];
     for i in 0..n_surf {
@@ -535,6 +568,9 @@ fn transparency(args: &Args, out: &mut Out) {
     }
     for i in 0..n_cell {
         progs.push(module_cell(&mut rng, i, &format!("{}", i)));
+    }
+    for i in 0..n_path {
+        progs.push(only_path(&mut rng, i));
     }
     let inputs: Vec<String> = progs.iter().map(|p| p.job.to_string()).collect();
     let mut results: Vec<Vec<Result<String, String>>> = vec![];
@@ -565,6 +601,12 @@ fn transparency(args: &Args, out: &mut Out) {
         out.count(&format!("trans-family:{}", fam_top));
         if oc == "err:static" {
             out.count("skipped:static-error");
+            if !p.family.starts_with("surf") {
+                out.count(&format!("skipped:static-error:{}", p.family));
+                if std::env::var("C05_DEBUG").is_ok() {
+                    eprintln!("{}: {}\n{}", p.family, b1, p.job["main"].as_str().unwrap_or(""));
+                }
+            }
             continue;
         }
         // An internal failure of the pipeline on a program of the shared generator (D15, D16, … listed
@@ -588,8 +630,10 @@ fn transparency(args: &Args, out: &mut Out) {
                 );
                 out.oracle_fail(&format!("gc-changes-outcome:{}", fam_fp), &what, json!({"job": p.job, "k": k}));
             } else if oc == "ok" && m2 > m1 {
+                // a program that spawns a thread: the finished thread is never reclaimed
+                let fam_mem = if p.family.contains("child-thread") { "spawned-thread-never-reclaimed".to_string() } else { fam_fp.clone() };
                 out.oracle_fail(
-                    &format!("memory-grows-on-rerun:{}", fam_fp),
+                    &format!("memory-grows-on-rerun:{}", fam_mem),
                     &format!("family {} k={}: allocated_memory after collect is {} after the first run and {} after the second run of the same program", p.family, k, m1, m2),
                     json!({"job": p.job, "k": k}),
                 );
